@@ -17,7 +17,8 @@ RULE = ('cases: (1) Request.from_json over the full product of a 16-value alphab
         '(65 536 objects, walked completely in both tiers); (2) JsonRpcError.from_json over 16^3 error objects, alone and '
         'embedded in an otherwise valid response; (3) Response.from_json over jsonrpc x id x result x error with 18 error '
         'shapes; (4) non-object inputs; (5) BatchRequest / BatchResponse.from_json over all arrays of <= 3 (quick 2..3) '
-        'elements from 12 element shapes and batch-level error objects; (6) all append/extend histories of <= 4 operations '
+        'elements from 12 element shapes and batch-level error objects, incl. null-id / id-less objects carrying an error (9 shapes) '
+        'AND a result (19 values of every JSON type) through the default and 6 error_cls routes; (6) all append/extend histories of <= 4 operations '
         'over ids {1,"1",2,0,"",None} on strict and non-strict batches - extend given its messages as a list (every history) and '
         'as tuple / dict view / generator expression / iter() / map() / itertools.chain (every history of <= 2 operations, a '
         'eighth of those of 3 in quick and all in thorough, the sampled longer ones in rotation) - compared with a list model through the public API '
@@ -56,6 +57,7 @@ FLOORS = {'*': {'error:deserialised-through-a-library-error-class': 300,
     'batch-response:accepted': 20, 'batch-response:rejected': 50, 'batch:identity-error': 10,
     'history:failed-op': 200, 'error:registered-code': 7, 'deep-payloads': 50, 'history:ops': 2000, 'nonobject': 20, 'ambient:batch-invariant': 1000,
     'extend-given-as:one-shot': 50000, 'extend-given-as:re-iterable': 200000,
+    'batch-level:both-result-and-error': 2000, 'batch-level:both-result-and-error:null-or-falsy-result': 500,
     'additional-members:error': 1500, 'additional-members:request': 1000, 'additional-members:response': 1000, 'additional-members:batch-level': 400,
 }}
 
@@ -298,9 +300,7 @@ EXTRA_PAIRS = [('name', 'stack'), ('self', 'cls'), ('args', 'kwargs'), ('id', 'm
 EXTRA_VALUES = [None, 0, 'x', [], {'a': 1}, True]
 OWN_MEMBERS = {'error': {'code', 'message', 'data'}, 'request': {'jsonrpc', 'id', 'method', 'params'},
                'response': {'jsonrpc', 'id', 'result', 'error'},
-               # REPORTED: BatchResponse.from_json({'jsonrpc': '2.0', 'id': None, 'error': {valid}, 'result': 1}) returns a
-               # batch-level error on the unchanged tree (a response object carrying both result and error, accepted; the
-               # result is dropped silently) - 'result' is therefore left out of the names added to a batch-level envelope
+               # `result` next to `error` is not an additional member but the both-result-and-error class: run_batch_level_both
                'batch-level': {'jsonrpc', 'id', 'error', 'result'}}
 EXTRA_BASES = {
     'error': [GOOD_ERR, {'code': -32601, 'message': 'Method not found', 'data': {'k': 1}}, {'code': 0, 'message': ''},
@@ -451,6 +451,30 @@ def run_batch_level(ctx):
         judge(ctx, 'batch-response', obj, None if valid else 'not-a-batch-level-error', status, out, allow_identity=True)
 
 
+BOTH_ERRORS = [GOOD_ERR, {'code': -32600, 'message': 'Invalid Request', 'data': None}, {'code': 0, 'message': ''},
+               {'code': 76001, 'message': 'c6 typed', 'data': [1]}, {'code': -32000, 'message': 'Server error'},
+               {'code': '5', 'message': 'm'}, {'code': 5}, None, 'boom']
+BOTH_RESULTS = [v for v in ALPHA if not (isinstance(v, str) and v == A)] + [{'k': [None]}, [[]], 10 ** 30, 'r' * 50]
+
+
+def run_batch_level_both(ctx):
+    """an object without id / with a null id that carries an error AND a result (of every JSON type, null and the falsy values
+    first of all), handed to BatchResponse.from_json - by default and with every error_cls: a response with both result and
+    error is never accepted, whatever the error object looks like"""
+    routes = [None] + ERROR_BASES + [C6Typed]
+    for i, r, e in itertools.product((None, A), BOTH_RESULTS, BOTH_ERRORS):
+        obj = build(jsonrpc='2.0', id=i, result=r, error=e)
+        for ecls in routes:
+            status, out = call(v20.BatchResponse.from_json, obj, **({} if ecls is None else {'error_cls': ecls}))
+            ctx.hit('batch-level:both-result-and-error')
+            if r is None or (not r and not isinstance(r, bool)) or r is False:
+                ctx.hit('batch-level:both-result-and-error:null-or-falsy-result')
+            judge(ctx, 'batch-response', obj, 'both-result-and-error', status, out, allow_identity=True, suffix=':batch-level-error-object')
+        # the same object as the only element of an array
+        status, out = call(v20.BatchResponse.from_json, [obj])
+        judge(ctx, 'batch-response', [obj], 'element:both-result-and-error', status, out, allow_identity=True)
+
+
 # ---- append / extend histories ----------------------------------------------------------------------
 
 IDS = [1, '1', 2, 0, '', None]
@@ -579,6 +603,7 @@ def gen(ctx):
         for as_object in (False, True):
             yield 'deep', {'depth': depth, 'as_object': as_object}
     yield 'batch_level', {}
+    yield 'batch_level_both', {}
     n_req, n_resp = len(REQ_ELEMS), len(RESP_ELEMS)
     for which, n in (('request', n_req), ('response', n_resp)):
         yield 'batch', {'which': which, 'idx': []}
@@ -613,5 +638,5 @@ def gen(ctx):
 
 KINDS = {
     'deep': run_deep, 'request_block': run_request_block, 'error_block': run_error_block, 'response_block': run_response_block,
-    'nonobjects': run_nonobjects, 'extra_members': run_extra_members, 'batch_level': run_batch_level, 'batch': run_batch, 'history': run_history,
+    'nonobjects': run_nonobjects, 'extra_members': run_extra_members, 'batch_level': run_batch_level, 'batch_level_both': run_batch_level_both, 'batch': run_batch, 'history': run_history,
 }
